@@ -17,6 +17,8 @@ func rulesC02(c *Ctx) {
 	retryDecision(c, map[string]bool{"decision": true})
 	c02Count(c)
 	c02Budget(c)
+	buildersStore(c, "retrypolicy")
+	delegatingBuilders(c, "retrypolicy")
 	// success stops the loop: PostExecute's success branch yields Done=true
 	c01PostExecute(c)
 	c01Verdict(c)
